@@ -304,8 +304,8 @@ func run(c *mon.Case) {
 
 func main() {
 	mon.Main(mon.Spec{
-		Prop: "C27",
-		Rule: "case = (constructor, integer type, value, width): every integer type x widths {1..17,31,32,127,128,255} x values within +-2 of 0, 2^(8w), 2^(8w-1), the type's range ends, 2^7, 2^8 (both signs for signed types) plus random patterns; decode through ConstUint for several target types; byte constructors with source slices shorter/longer than the width and mutated afterwards; chains of 1-4 WithWidth steps (narrow, widen back, machine widths) from byte and integer constants, each link decoded through ConstUint and re-checked at the end; non-trivial = value within 2 of a range boundary of the width or the type, distinct by call",
+		Prop:        "C27",
+		Rule:        "case = (constructor, integer type, value, width): every integer type x widths {1..17,31,32,127,128,255} x values within +-2 of 0, 2^(8w), 2^(8w-1), the type's range ends, 2^7, 2^8 (both signs for signed types) plus random patterns; decode through ConstUint for several target types; byte constructors with source slices shorter/longer than the width and mutated afterwards; chains of 1-4 WithWidth steps (narrow, widen back, machine widths) from byte and integer constants, each link decoded through ConstUint and re-checked at the end; non-trivial = value within 2 of a range boundary of the width or the type, distinct by call",
 		Explanation: "oracle: math/big two's-complement encode/decode and range tests; 'fails' = panic; acceptance must equal membership in the unsigned (resp. signed) range of w bytes",
 		Assumptions: []string{"math/big"},
 		Cases: func(t string) int {
